@@ -22,3 +22,6 @@ pub(crate) mod errors;
 
 #[cfg(not(feature = "bench_testable"))]
 pub(crate) mod buffer_event;
+
+#[cfg(cached_verif)]
+pub mod verif;
